@@ -67,6 +67,7 @@ CLASSES = [
     's404_marker',
     'c4xx_marker',
     'near_marker5xx',
+    'nokind5xx',
     'exc',
 ]
 ATTEMPTS = 6
@@ -100,7 +101,8 @@ PATHS = [
 
 
 def gen_response(rng, cls, tok):
-    st5 = rng.choice([500, 500, 502, 503, 503, 504])
+    # 5xx codes in use: the registered ones and those of proxies/CDNs in front of a node (509, 520-530, 598, 599 are not in the IANA registry)
+    st5 = rng.choice([500, 500, 502, 503, 503, 504, 507, 509, 520, 522, 529, 599])
     if cls == 'ok':
         return {'cls': cls, 'status': 200, 'ctype': 'application/json', 'body': json.dumps({'tok': tok})}
     if cls == 't_json':
@@ -150,6 +152,15 @@ def gen_response(rng, cls, tok):
         return {'cls': cls, 'status': 404, 'ctype': 'text/plain', 'body': f'no such path src/lib_shell/prevalidator.ml {tok}'}
     if cls == 'c4xx_marker':
         return {'cls': cls, 'status': rng.choice([400, 403, 409]), 'ctype': 'text/plain', 'body': f'bad request: Assert_failure src/lib_shell/prevalidator.ml:1918:6 {tok}'}
+    if cls == 'nokind5xx':
+        # error objects that do not say what kind they are (made by a proxy, or a trace entry without the field): nothing says "temporary"
+        e = {'id': rng.choice(['node.validator.invalid', 'gateway.upstream', 'failure']), 'tok': tok}
+        k = rng.choice(['missing', 'empty', 'null'])
+        if k == 'empty':
+            e['kind'] = ''
+        elif k == 'null':
+            e['kind'] = None
+        return {'cls': cls, 'status': st5, 'ctype': 'application/json', 'body': json.dumps([e])}
     if cls == 'near_marker5xx':
         # texts that resemble the prevalidator marker without containing it
         near = rng.choice(['src/lib_shell/prevalidator/ml_store.ml', 'prevalidator_mlock', 'prevalidator ml-node-2', 'prevalidatorXml', 'prevalidator,ml'])
